@@ -59,6 +59,17 @@ func Spec(prop, tier string) *core.CheckSpec {
 			Stub:   []string{"goroutine scheduling decisions (controlled scheduler)", "host callbacks emit/probe"},
 			Assume: []string{"heap bound M3 uses runtime.MemStats.TotalAlloc of the worker process: 64*M + 256 MiB per run"},
 		}
+	case "C07":
+		return &core.CheckSpec{
+			Property: "C07", Level: "exploration",
+			Rule: "seeded histories of push/pop/require/release/soft-stop/hard-stop/clock-advance on the context stack through the Go API, limits and amounts from {0,1,2,small,b-1,b,b+1 around the remaining budget,2^32,2^63,2^64-1}, simulated clock; every operation checked against an exact-arithmetic reference model (conservation ledger). non-trivial = some context was killed or at least two contexts were nested; distinct = hash of the operation history",
+			Batches: []core.Batch{
+				{Engine: "ctx", Mode: "", Runs: n(300000, 30000000), Millis: ms(30000, 900000), Chunk: 20000},
+			},
+			Real:   []string{"runtime.Runtime context manager (PushContext/PopContext/Require*/Release*/SetStopLevel/Due), unmodified"},
+			Stub:   []string{"wall clock (simulated through the verifClock hook)", "the host driver recovers termination panics as CallContext does"},
+			Assume: []string{"the driver only issues operations a host may legally issue (no requirement in a terminated context, releases within what the frame holds)"},
+		}
 	}
 	return nil
 }
